@@ -470,14 +470,24 @@ def correspond(ctx):
             for name, f, op in (('plane4to3', miller.plane4to3, 'p43'), ('vector4to3', miller.vector4to3, 'v43')):
                 r, e = _call(f, list(bad))
                 B.add(name + ':guard', f'{op} {atol_s} %d %d %d %d' % bad, r, e, _cmp_exact, list(bad), nontrivial=False)
-    # an array with one bad row is rejected as a whole
-    for name, f in (('plane4to3', miller.plane4to3), ('vector4to3', miller.vector4to3)):
-        arr = np.array(quads_ok[:5] + [(1, 1, 1, 0)] + quads_ok[5:9])
-        r, e = _call(f, arr)
-        ctx.stats.case(name + ':guard-array', 'one bad row', nontrivial=False)
-        if e != 'err:value':
-            ctx.disagree(name + ':guard-array', f'{name}: array with a row h+k+i != 0 was accepted',
-                         {'op': name, 'input': arr.tolist(), 'impl': _tolist(r)})
+    # an array with bad rows is rejected as a whole: the model maps the guard over the rows (first error wins), the
+    # implementation gets the array; offsets may cancel across rows
+    for _ in range(ctx.n(60, 600)):
+        cnt = rng.randint(2, 7)
+        rows = [list(q) for q in rng.sample(quads_ok, cnt)]
+        offs, kind = _guard_offsets(rng, cnt)
+        for j, d in enumerate(offs):
+            rows[j][2] += d
+        arr = np.array(rows)
+        for name, f, op in (('plane4to3', miller.plane4to3, 'p43'), ('vector4to3', miller.vector4to3, 'v43')):
+            r, e = _call(f, arr)
+            outs = ctx.driver.ask_many([f'{op} {atol_s} %d %d %d %d' % tuple(q) for q in rows])
+            model_err = next((o for o in outs if o.startswith('err:')), None)
+            ctx.stats.case(name + ':guard-array', (name, kind, tuple(map(tuple, rows))), nontrivial=False)
+            if (e or 'value') != (model_err or 'value'):
+                ctx.disagree(name + ':guard-array', f'{name}: array {arr.tolist()} (rows off by {offs}): implementation '
+                             f'{e or "returned a value"}, model row-wise {model_err or "accepts every row"}',
+                             {'op': name + ':guard-array', 'input': arr.tolist(), 'impl': e or _tolist(r)})
     # non-integer four-index vectors: images of vector3to4 (thirds), tiny and small guard offsets
     for t in rng.sample(tri, ctx.n(300, 3000)):
         q = _ref_vector3to4(t)
@@ -806,6 +816,22 @@ def _o_same_direction(ctx, np, miller, hexbox, t):
                     {'op': 'same_direction', 'idx': t, 'vects': hexbox.vects.tolist()})
 
 
+def _o_vector_cart(ctx, np, miller, box, label, uvw):
+    """[uvw] denotes u a + v b + w c (exact), through the Box method and the stand-alone function alike."""
+    uvw = list(uvw)
+    V = [[_F(x) for x in row] for row in box.vects]
+    want = [sum(uvw[i] * V[i][j] for i in range(3)) for j in range(3)]
+    scale = max(1.0, max(abs(float(x)) for x in want))
+    replay = {'op': 'vector_cart', 'uvw': uvw, 'vects': box.vects.tolist(), 'cell': label}
+    for nm, f in (('Box.vector_crystal_to_cartesian', box.vector_crystal_to_cartesian),
+                  ('miller.vector_crystal_to_cartesian', lambda x: miller.vector_crystal_to_cartesian(x, box))):
+        r, e = _call(f, uvw)
+        if e is not None or np.asarray(r).shape != (3,) or not cm.allclose(np.asarray(r).tolist(), want, 1e-14, 1e-14 * scale):
+            ctx.violate('vector_cart:value', f'{nm}({uvw}) in a {label} cell is {e or np.asarray(r).tolist()}, '
+                        f'u a + v b + w c is {[float(x) for x in want]}', replay)
+            return
+
+
 def _o_normal(ctx, np, box, label, hkl, rng, quad=None):
     """normal = unit vector along h a*+k b*+l c* (right-handed cell); perpendicular to exactly the zone-law vectors.
     With `quad` = (h k i l), i = -(h+k), on a hexagonal cell the four-index form is what is passed to the code: it
@@ -880,16 +906,43 @@ def _o_plane4_guard(ctx, np, hexbox, otherbox, otherlabel, q):
                          'other': otherbox.vects.tolist(), 'otherlabel': otherlabel})
 
 
-def _o_guard_array(ctx, np, miller, rows, k):
-    """an array in which ONE row violates the sum guard is rejected (the conversion of that row would lose i/t)."""
+def _o_guard_array(ctx, np, miller, rows, offs, shape=None):
+    """an array in which SOME rows violate the sum guard is rejected as a whole, whatever the other rows are and
+    whatever the offending sums add up to (offsets `offs[j]` are added to the third index of row j; they may cancel
+    across rows: +d in one row, -d in another), for every leading shape."""
     rows = [list(r) for r in rows]
     badrows = [list(r) for r in rows]
-    badrows[k][2] += 1
+    for j, d in enumerate(offs):
+        badrows[j][2] += d
+    if not any(offs):
+        raise cm.InfraError('harness: guard-array case without an offending row')
+    arr = np.array(badrows)
+    if shape is not None:
+        arr = arr.reshape(tuple(shape) + (4,))
     for nm in ('plane4to3', 'vector4to3'):
-        r, e = _call(getattr(miller, nm), np.array(badrows))
+        r, e = _call(getattr(miller, nm), arr)
         if e != 'err:value':
-            ctx.violate(nm + ':guard-array', f'{nm} accepts the array {badrows} although row {k} has h+k+i != 0 '
-                        f'({e or np.asarray(r).tolist()})', {'op': 'guard_array', 'rows': rows, 'k': k})
+            ctx.violate(nm + ':guard-array', f'{nm} accepts the array {arr.tolist()} although the rows '
+                        f'{[j for j, d in enumerate(offs) if d]} have h+k+i != 0 (result {e or np.asarray(r).tolist()})',
+                        {'op': 'guard_array', 'rows': rows, 'offs': list(offs), 'shape': None if shape is None else list(shape)})
+
+
+def _guard_offsets(rng, n):
+    """offset patterns for n >= 2 rows: one bad row; two rows +d/-d (sums cancel); three rows summing to zero; all."""
+    kind = rng.choice(['one', 'pair', 'pair', 'triple', 'all'])
+    offs = [0] * n
+    idx = list(range(n))
+    rng.shuffle(idx)
+    d = rng.choice([1, 1, 2, 3, 7])
+    if kind == 'one':
+        offs[idx[0]] = rng.choice([d, -d])
+    elif kind == 'pair' or (kind == 'triple' and n < 3):
+        offs[idx[0]], offs[idx[1]] = d, -d
+    elif kind == 'triple':
+        offs[idx[0]], offs[idx[1]], offs[idx[2]] = d, d, -2 * d
+    else:
+        offs = [rng.choice([-2, -1, 1, 2]) for _ in range(n)]
+    return offs, kind
 
 
 SHAPES = [(2, 2), (2, 3), (3, 2), (4,), (1,), (1, 5), (2, 2, 2), (3, 3), (2, 1, 2), (3, 1), (1, 1, 1)]
@@ -1213,6 +1266,10 @@ def search(ctx, broken):
             ctx.stats.case('oracle:normal', (label, ci, t))
             _guard(ctx, 'plane_normal', {'op': 'normal', 'hkl': list(t), 'vects': box.vects.tolist(), 'cell': label},
                    _o_normal, ctx, np, box, label, t, rng)
+        for t in rng.sample(nz, ctx.n(150, 1000)):
+            ctx.stats.case('oracle:vector_cart', (label, ci, t))
+            _guard(ctx, 'vector_cart', {'op': 'vector_cart', 'uvw': list(t), 'vects': box.vects.tolist(), 'cell': label},
+                   _o_vector_cart, ctx, np, miller, box, label, t)
     r, e = _call(cells[0][1].plane_crystal_to_cartesian, [0, 0, 0])
     if e != 'err:value':
         ctx.violate('plane_normal:zero', 'the zero plane index vector is not rejected', {'op': 'normal-zero'})
@@ -1238,12 +1295,19 @@ def search(ctx, broken):
             _guard(ctx, 'plane4_guard', {'op': 'plane4_guard', 'quad': list(q), 'hex': hb.vects.tolist(),
                                          'other': ob.vects.tolist(), 'otherlabel': label},
                    _o_plane4_guard, ctx, np, hb, ob, label, q)
-    for _ in range(ctx.n(40, 400) * mult):
-        rows = rng.sample(quads, rng.randint(2, 6))
-        k = rng.randrange(len(rows))
-        ctx.stats.case('oracle:guard-array', (tuple(rows), k), nontrivial=False)
-        _guard(ctx, 'guard_array', {'op': 'guard_array', 'rows': [list(r) for r in rows], 'k': k},
-               _o_guard_array, ctx, np, miller, rows, k)
+    for _ in range(ctx.n(120, 1200) * mult):
+        shape = rng.choice([None, None, (2, 2), (2, 3), (3, 1), (1, 2, 2)])
+        cnt = rng.randint(2, 6)
+        if shape is not None:
+            cnt = 1
+            for d in shape:
+                cnt *= d
+        rows = rng.sample(quads, cnt)
+        offs, kind = _guard_offsets(rng, cnt)
+        ctx.stats.case('oracle:guard-array', (tuple(rows), tuple(offs), shape), nontrivial=False)
+        _guard(ctx, 'guard_array', {'op': 'guard_array', 'rows': [list(r) for r in rows], 'offs': offs,
+                                    'shape': None if shape is None else list(shape)},
+               _o_guard_array, ctx, np, miller, rows, offs, shape)
     # 3c. arrays of any leading shape, every function of the property
     hexb = am.Box.hexagonal(*[_generic_lengths(rng)[i] for i in (0, 2)])
     shape_targets = [('plane3to4', 3, None), ('vector3to4', 3, None), ('plane4to3', 4, None), ('vector4to3', 4, None),
@@ -1347,10 +1411,12 @@ def _replay(ctx, payload):
         _o_same_direction(ctx, np, miller, am.Box(vects=r['vects']), r['idx'])
     elif op == 'normal':
         _o_normal(ctx, np, am.Box(vects=r['vects']), r.get('cell', '?'), r['hkl'], rng, r.get('quad'))
+    elif op == 'vector_cart':
+        _o_vector_cart(ctx, np, miller, am.Box(vects=r['vects']), r.get('cell', '?'), r['uvw'])
     elif op == 'plane4_guard':
         _o_plane4_guard(ctx, np, am.Box(vects=r['hex']), am.Box(vects=r['other']), r.get('otherlabel', '?'), r['quad'])
     elif op == 'guard_array':
-        _o_guard_array(ctx, np, miller, r['rows'], r['k'])
+        _o_guard_array(ctx, np, miller, r['rows'], r['offs'], r.get('shape'))
     elif op == 'shape':
         _o_shape(ctx, np, am, miller, r['fn'], r['rows'], tuple(r['shape']), r.get('extra'))
     elif op == 'centering':
